@@ -341,6 +341,37 @@ let cmd_dec (args : string list) : string =
     (match decode_message (fuel_for bs) bs with
      | Ok (x, _) -> "ok " ^ hex_of_bytes (encode_message x)
      | Err e -> "err " ^ err_name e | Panic s -> "panic " ^ hex_of_n s | Fuel -> "fuel")
+  (* unit-level view of a full-state update against the unit-level view of the updates its content came from: block splits and
+     squashes must not change any unit (id, origin, right origin, parent when transmitted, content) *)
+  | "unitcmp" :: full :: origs ->
+    let dec hx = let bs = bytes_of_hex hx in (match decode_update_v1 (fuel_for bs) bs with Ok (u, _) -> Some (units_of_update u) | _ -> None) in
+    let tbl : (string, op) Hashtbl.t = Hashtbl.create 64 in
+    let bad = ref None in
+    let same_known pa pb = (match pa, pb with PUnknown, _ | _, PUnknown -> true | _ -> print_parent pa = print_parent pb) in
+    let same_sub sa sb = (match sa, sb with None, _ | _, None -> true | Some a, Some b -> a = b) in
+    let same (a : op) (b : op) = print_oid a.oorigin = print_oid b.oorigin && print_oid a.ororigin = print_oid b.ororigin
+                                 && same_known a.oparent b.oparent && same_sub a.osub b.osub
+                                 && (print_ucontent a.ocont = print_ucontent b.ocont || a.ocont = UDeleted || b.ocont = UDeleted) in
+    let show (o : op) = print_id o.oid ^ "<" ^ print_oid o.oorigin ^ ">" ^ print_oid o.ororigin ^ "^" ^ print_parent o.oparent ^ "=" ^ print_ucontent o.ocont in
+    List.iter (fun hx -> match dec hx with
+      | None -> bad := Some ("undecodable " ^ hx)
+      | Some us -> List.iter (fun x -> match x with
+          | XItem o -> let k = print_id o.oid in
+            (match Hashtbl.find_opt tbl k with
+             | None -> Hashtbl.replace tbl k o
+             | Some o' -> if not (same o o') && !bad = None then bad := Some ("originals-disagree " ^ show o ^ " vs " ^ show o'))
+          | XGC _ -> ()) us) origs;
+    (match !bad with Some m -> "err " ^ m | None ->
+      (match dec full with
+       | None -> "err undecodable-full"
+       | Some us ->
+         let n = ref 0 and missing = ref 0 in
+         List.iter (fun x -> match x with
+           | XItem o -> (match Hashtbl.find_opt tbl (print_id o.oid) with
+               | None -> incr missing
+               | Some o' -> incr n; if not (same o o') && !bad = None then bad := Some ("diff full=" ^ show o ^ " orig=" ^ show o'))
+           | XGC _ -> ()) us;
+         (match !bad with Some m -> m | None -> "ok n=" ^ string_of_int !n ^ " missing=" ^ string_of_int !missing)))
   (* lib0 v2 (column) form of an update *)
   | ["update2"; hx] -> let bs = bytes_of_hex hx in pres print_update (decode_update_v2 bs)
   | ["reenc_update2"; hx] ->
